@@ -239,6 +239,30 @@ def make_cases(run, scratch):
             d = scratch.unpack(tb)
             cases.append(("linux:%s|%s" % (os.path.basename(tb), ";".join(cfg)),
                           ["env HWLOC_COMPONENTS linux,stop", "env HWLOC_THISSYSTEM 0", "env HWLOC_CPUID_PATH"] + cfg + ["src fsroot " + d], "memory-filters"))
+    # (the total-memory tie compares the phase-5 tree with the final one: not applicable here, hwloc_topology_load restricts after phase 5)
+    # the load-time restriction to the binding of the process (flags IS_THISSYSTEM|RESTRICT_TO_CPUBINDING [|RESTRICT_TO_MEMBINDING
+    # |THISSYSTEM_ALLOWED_RESOURCES]) on foreign sources, with the process really bound to a few CPUs (seeded change C01f:
+    # restrict skips objects whose cpuset is empty but whose complete_cpuset is not).  Sources with disallowed/offline PUs first.
+    ncpu_here = os.cpu_count() or 1
+    bind_choices = ["0", "0,1", "1,3", "0,2,5"] if ncpu_here >= 6 else ["0"]
+    rb_xml = [x for x in xmls if any(k in os.path.basename(x) for k in ("cpusets", "offline", "cgroup", "disallowed", "8n2c", "4n2t"))] or xmls[:4]
+    rb_syn = ["pack:2 [numa(indexes=1,0)] pu:8", "node:4 core:2 pu:2", "pack:2 core:2 pu:2", "group:2 [numa] pack:2 pu:2"]
+    rb_lin = [t for t in S.snapshots("linux") if any(k in os.path.basename(t) for k in ("cpusets", "cgroup", "offline"))]
+    for r in range(30 if quick else 400):
+        fl = 2 | 16 | (32 if rng.random() < 0.3 else 0) | (4 if rng.random() < 0.4 else 0) | (1 if rng.random() < 0.15 else 0)
+        cfg = (S.filter_lines(rng) if rng.random() < 0.3 else []) + ["bindself " + rng.choice(bind_choices), "flags %d" % fl]
+        k = rng.random()
+        if k < 0.45 and rb_xml:
+            x = rng.choice(rb_xml)
+            cases.append(("xml:%s|%s|libxml=0" % (os.path.basename(x), ";".join(cfg)), ["env HWLOC_LIBXML_IMPORT 0"] + cfg + ["src xml " + x], "restrict-to-binding"))
+        elif k < 0.75 or not rb_lin:
+            desc = rng.choice(rb_syn)
+            cases.append(("synthetic:%s|%s" % (desc, ";".join(cfg)), cfg + ["src synthetic " + desc], "restrict-to-binding"))
+        else:
+            tb = rng.choice(rb_lin)
+            d = scratch.unpack(tb)
+            cases.append(("linux:%s|%s" % (os.path.basename(tb), ";".join(cfg)),
+                          ["env HWLOC_COMPONENTS linux,stop", "env HWLOC_THISSYSTEM 1", "env HWLOC_CPUID_PATH"] + cfg + ["src fsroot " + d], "restrict-to-binding"))
     # I/O type filters on the snapshots that have a PCI bus: every (Bridge, PCIDevice) pair of {ALL, NONE, IMPORTANT}
     # with OSDevice/Misc drawn (all 27 triples in the thorough tier).  Seeded change C18b: the Linux PCI discovery
     # tested the PCIDevice filter where it should test the Bridge filter.
@@ -312,6 +336,8 @@ def script_of(indexed):
         out.append("echo CASE %d" % i)
         out.append("new")
         out.append("phases 2" if trace_inserts(name, kind) else "phases 1")
+        if not any(l.startswith("bindself ") for l in lines):
+            out.append("bindself all")
         out += lines
         out += ["load", "dump", "check", "destroy"]
     return "\n".join(out) + "\n"
@@ -404,7 +430,7 @@ def judge(run, cases, results):
                 run.violation("correspondence:linux-cpu-requests:%s" % kind,
                               "model of look_sysfscpu (Topo/LinuxCpu.v, composed with the sysfs parser models) disagrees with the objects the Linux backend hands to the core on %s" % name,
                               script + "\n--- verdict\n" + r["linuxcpu"][:2000], no_input=(r["wf"] or "").startswith("wf ok"))
-            elif r.get("sets") != "sets ok" or r.get("totals") != "totals ok" or r.get("removal") != "removal ok" or r.get("merge") != "merge ok":
+            elif r.get("sets") != "sets ok" or (r.get("totals") != "totals ok" and kind != "restrict-to-binding") or r.get("removal") != "removal ok" or r.get("merge") != "merge ok":
                 run.violation("correspondence:sets-pipeline:%s" % kind,
                               "model of the set post-processing (root fix-up, propagate_nodeset, fixup_sets, remove_unused_sets, filter_bridges, remove_empty, KEEP_STRUCTURE merging, propagate_total_memory) disagrees with the implementation on %s" % name,
                               script + "\n--- verdict\n%s\n%s\n%s" % (r.get("sets"), r.get("totals"), str(r.get("removal")) + " " + str(r.get("merge"))), no_input=(r["wf"] or "").startswith("wf ok"))
